@@ -410,9 +410,43 @@ func decodeViaTCP(b []byte) Res {
 		return resOf(v, err)
 	})
 	if failed || r.Tag != "ok" {
-		reset()
+		// A rejected envelope need not end the connection (only a syntax error does): a well-known envelope is sent
+		// behind it.  If it comes back as sent the transport stays in use; if Receive fails the stream is over; if it
+		// comes back as something else, the rejected envelope has left something behind in the transport.
+		_, _ = tcpPathConn.Write([]byte(`{"id":"probe","type":"text/plain","content":"p"}` + "\n"))
+		pctx, pcancel := context.WithTimeout(context.Background(), time.Second)
+		pr := guard(func() Res {
+			v, err := t.Receive(pctx)
+			return resOf(v, err)
+		})
+		pcancel()
+		switch {
+		case pr.Tag != "ok":
+			reset()
+		case pr.Coq() != tcpProbeTerm():
+			tcpPathAnomalies = append(tcpPathAnomalies, tcpAnomaly{After: string(b), Got: pr})
+			reset()
+		}
 	}
 	return r
+}
+
+// tcpAnomaly: what the probe envelope came back as, after the given rejected input on the same connection
+type tcpAnomaly struct {
+	After string `json:"after_rejected_input"`
+	Got   Res    `json:"probe_came_back_as"`
+}
+
+var tcpPathAnomalies []tcpAnomaly
+var tcpProbeTermCache string
+
+func tcpProbeTerm() string {
+	if tcpProbeTermCache == "" {
+		var m lime.Message
+		_ = json.Unmarshal([]byte(`{"id":"probe","type":"text/plain","content":"p"}`), &m)
+		tcpProbeTermCache = resOf(&m, nil).Coq()
+	}
+	return tcpProbeTermCache
 }
 
 // wsPath is a real WebSocket transport (server side) fed by a raw gorilla client.
